@@ -57,7 +57,7 @@ const searchTimeout = 40 * time.Second
 
 func (*h) Rule() string {
 	return "per case a generated in-memory corpus (0..~150 documents in 1..4 batches, some deleted) with single- and multi-valued numeric, date and keyword fields, duplicates inside a document and missing values; " +
-		"requests = query (match-all, none, term, must, should, must-not, numeric range) x aggregation tree (1..3 top-level: count/sum/min/max/avg/weighted avg, cardinality, quantiles, terms / numeric ranges / date ranges -> nested metrics, cardinality and quantiles) x collector settings " +
+		"requests = query (match-all, none, term, must, should, must-not, numeric range) x aggregation tree (1..3 top-level: count/sum/min/max/avg/weighted avg, cardinality, quantiles, terms / numeric ranges / date ranges -> nested metrics, cardinality and quantiles; about 30% of the value sources are filtering sources FilterText (value sets) / FilterNumeric / FilterDate (thresholds), and a bucket aggregation over a filtered source usually gets a nested reader of the same plain field) x collector settings " +
 		"(AllMatches; TopN with n in {0,1,3,10,50}, from, sort by score/field(s), search-after/before keys taken from the corpus); every (query, tree) is run under several settings, 45% of the trees are used again under another query, and one aggregation DEFINITION object per tree and case serves all those requests; every sketch (top-level and per bucket) is printed next to the same Go sketch type fed directly with the values of the documents belonging to that bucket. " +
 		"A request is non-trivial when it matches at least one document; distinct = distinct (case, request line)"
 }
@@ -392,6 +392,19 @@ func (g *reqGen) dateBound(f string) string {
 	return strconv.FormatInt(int64(1600000000)*1e9+int64(r.Range(-600, 600))*3600*1e9, 10)
 }
 
+// a date threshold of a filtering source, in nanoseconds
+func (g *reqGen) dateThreshold(f string) string {
+	r := g.r
+	if v, ok := g.someVal(f); ok && r.Chance(80) {
+		x, _ := strconv.ParseInt(v, 10, 64)
+		if x > math.MinInt64+10 && x < math.MaxInt64-10 {
+			return strconv.FormatInt(x+int64(r.Range(-1, 1)), 10)
+		}
+		return v
+	}
+	return strconv.FormatInt(int64(1600000000)*1e9+int64(r.Range(-600, 600))*3600*1e9, 10)
+}
+
 // metric over fields drawn from `avail` (each use removes the field when `distinct`)
 func (g *reqGen) metric(pick func(kind byte) string) string {
 	r := g.r
@@ -446,17 +459,62 @@ func (g *reqGen) aggs() (string, map[string]bool) {
 		used[f] = true
 		return f
 	}
-	subs := func() string {
+	// with some probability the source is a filtering one
+	filt := func(f string) string {
+		if !r.Chance(30) {
+			return f
+		}
+		switch kindOf(f) {
+		case 'k':
+			// value sets from the low end of the vocabulary (doc values come in term order: rejecting an early value
+			// and keeping a later one is the interesting case) and from the corpus
+			set := map[string]bool{}
+			for i, n := 0, r.Range(1, 3); i < n; i++ {
+				if v, ok := g.someVal(f); ok && r.Bool() {
+					set[v] = true
+				} else {
+					set[fmt.Sprintf("v%02d", r.Intn(g.vocab))] = true
+				}
+			}
+			vs := []string{}
+			for v := range set {
+				vs = append(vs, v)
+			}
+			sort.Strings(vs)
+			return f + "!" + []string{"ni", "ni", "in"}[r.Intn(3)] + "." + strings.Join(vs, ".")
+		case 'd':
+			return f + "!" + []string{"ge", "lt"}[r.Intn(2)] + "." + g.dateThreshold(f)
+		default:
+			return f + "!" + []string{"ge", "lt"}[r.Intn(2)] + "." + g.numBound(f)
+		}
+	}
+	// a nested reader of the SAME field as a filtered bucket source (it must see the field's unfiltered values)
+	sameFieldReader := func(src string) string {
+		f := baseField(src)
+		switch kindOf(f) {
+		case 'k':
+			return "card:" + f
+		case 'n', 'w':
+			return []string{"quant:", "sum:", "min:"}[r.Intn(3)] + f
+		}
+		return ""
+	}
+	subsFor := func(src string) string {
 		n := r.Weighted(3, 4, 2)
 		out := []string{}
+		if strings.Contains(src, "!") && r.Chance(70) {
+			if x := sameFieldReader(src); x != "" {
+				out = append(out, x)
+			}
+		}
 		for i := 0; i < n; i++ {
 			switch r.Weighted(5, 2, 3) {
 			case 0:
-				out = append(out, g.metric(pick))
+				out = append(out, g.metric(func(k byte) string { return filt(pick(k)) }))
 			case 1:
-				out = append(out, "card:"+pick('k'))
+				out = append(out, "card:"+filt(pick('k')))
 			default:
-				out = append(out, "quant:"+pick('n'))
+				out = append(out, "quant:"+filt(pick('n')))
 			}
 		}
 		if len(out) == 0 {
@@ -469,16 +527,18 @@ func (g *reqGen) aggs() (string, map[string]bool) {
 	for i := 0; i < n; i++ {
 		switch r.Weighted(5, 2, 2, 5, 4, 3) {
 		case 0:
-			out = append(out, g.metric(pick))
+			out = append(out, g.metric(func(k byte) string { return filt(pick(k)) }))
 		case 1:
-			out = append(out, "card:"+pick('k'))
+			out = append(out, "card:"+filt(pick('k')))
 		case 2:
-			out = append(out, "quant:"+pick('n'))
+			out = append(out, "quant:"+filt(pick('n')))
 		case 3:
 			size := []int{0, 1, 2, 3, 5, 12, 13, 100}[r.Weighted(1, 3, 3, 3, 3, 1, 1, 3)]
-			out = append(out, fmt.Sprintf("terms:%s,%d%s", pick('k'), size, subs()))
+			src := filt(pick('k'))
+			out = append(out, fmt.Sprintf("terms:%s,%d%s", src, size, subsFor(src)))
 		case 4:
 			f := pick('n')
+			src := filt(f)
 			rs := []string{}
 			for j, m := 0, r.Range(1, 4); j < m; j++ {
 				lo, hi := g.numBound(f), g.numBound(f)
@@ -487,9 +547,10 @@ func (g *reqGen) aggs() (string, map[string]bool) {
 				}
 				rs = append(rs, lo+"~"+hi)
 			}
-			out = append(out, "ranges:"+f+","+strings.Join(rs, ",")+subs())
+			out = append(out, "ranges:"+src+","+strings.Join(rs, ",")+subsFor(src))
 		default:
 			f := pick('d')
+			src := filt(f)
 			rs := []string{}
 			for j, m := 0, r.Range(1, 4); j < m; j++ {
 				lo, hi := g.dateBound(f), g.dateBound(f)
@@ -500,7 +561,7 @@ func (g *reqGen) aggs() (string, map[string]bool) {
 				}
 				rs = append(rs, lo+"~"+hi)
 			}
-			out = append(out, "dranges:"+f+","+strings.Join(rs, ",")+subs())
+			out = append(out, "dranges:"+src+","+strings.Join(rs, ",")+subsFor(src))
 		}
 	}
 	return strings.Join(out, ";"), used
@@ -793,29 +854,29 @@ func (a *aggSpec) build() search.Aggregation {
 	case "count":
 		return aggregations.CountMatches()
 	case "sum":
-		return aggregations.Sum(search.Field(a.f))
+		return aggregations.Sum(numSource(a.f))
 	case "min":
-		return aggregations.Min(search.Field(a.f))
+		return aggregations.Min(numSource(a.f))
 	case "max":
-		return aggregations.Max(search.Field(a.f))
+		return aggregations.Max(numSource(a.f))
 	case "maxs":
-		return aggregations.MaxStartingAt(search.Field(a.f), a.init)
+		return aggregations.MaxStartingAt(numSource(a.f), a.init)
 	case "avg":
-		return aggregations.Avg(search.Field(a.f))
+		return aggregations.Avg(numSource(a.f))
 	case "wavg":
-		return aggregations.WeightedAvg(search.Field(a.f), search.Field(a.w))
+		return aggregations.WeightedAvg(numSource(a.f), numSource(a.w))
 	case "card":
-		return aggregations.Cardinality(search.Field(a.f))
+		return aggregations.Cardinality(textSource(a.f))
 	case "quant":
-		return aggregations.Quantiles(search.Field(a.f))
+		return aggregations.Quantiles(numSource(a.f))
 	case "terms":
-		t := aggregations.NewTermsAggregation(search.Field(a.f), a.size)
+		t := aggregations.NewTermsAggregation(textSource(a.f), a.size)
 		for i, m := range a.subs {
 			t.AddAggregation(fmt.Sprintf("s%d", i), m.build())
 		}
 		return t
 	case "ranges":
-		t := aggregations.Ranges(search.Field(a.f))
+		t := aggregations.Ranges(numSource(a.f))
 		for i, rg := range a.ranges {
 			b := strings.Split(rg, "~")
 			t.AddRange(aggregations.NamedRange(fmt.Sprintf("r%d", i), math.Float64frombits(p64(b[0])), math.Float64frombits(p64(b[1]))))
@@ -825,7 +886,7 @@ func (a *aggSpec) build() search.Aggregation {
 		}
 		return t
 	case "dranges":
-		t := aggregations.DateRanges(search.Field(a.f))
+		t := aggregations.DateRanges(dateSource(a.f))
 		for i, rg := range a.ranges {
 			b := strings.Split(rg, "~")
 			t.AddRange(aggregations.NewNamedDateRange(fmt.Sprintf("r%d", i), dateOf(b[0]), dateOf(b[1])))
@@ -849,10 +910,93 @@ func quantString(q func(float64) float64) string {
 }
 
 // canonical doc values of one document (distinct, ascending in term order), from the corpus table
-func canonNums(d *doc, f string) []float64 {
+// ---- value sources of the script: "<field>" = search.Field(field), "<field>!<op>.<arg>…" = a filtering source over it:
+//	keyword   km!in.v01.v05 (keep the listed values)   km!ni.v01 (keep all but the listed values)
+//	numeric   nm!ge.<f64 bits> (keep v >= t)           nm!lt.<f64 bits> (keep v < t)
+//	date      dm!ge.<unix nanos>                        dm!lt.<unix nanos>
+
+func baseField(spec string) string {
+	if i := strings.IndexByte(spec, '!'); i >= 0 {
+		return spec[:i]
+	}
+	return spec
+}
+
+func predOf(spec string) (op string, args []string) {
+	i := strings.IndexByte(spec, '!')
+	if i < 0 {
+		return "", nil
+	}
+	p := strings.Split(spec[i+1:], ".")
+	return p[0], p[1:]
+}
+
+func keepNum(spec string) func(float64) bool {
+	op, args := predOf(spec)
+	if op == "" {
+		return nil
+	}
+	t := math.Float64frombits(p64(args[0]))
+	if op == "ge" {
+		return func(v float64) bool { return v >= t }
+	}
+	return func(v float64) bool { return v < t }
+}
+
+func keepDate(spec string) func(int64) bool {
+	op, args := predOf(spec)
+	if op == "" {
+		return nil
+	}
+	t, _ := strconv.ParseInt(args[0], 10, 64)
+	if op == "ge" {
+		return func(v int64) bool { return v >= t }
+	}
+	return func(v int64) bool { return v < t }
+}
+
+func keepText(spec string) func(string) bool {
+	op, args := predOf(spec)
+	if op == "" {
+		return nil
+	}
+	set := map[string]bool{}
+	for _, a := range args {
+		set[a] = true
+	}
+	if op == "in" {
+		return func(v string) bool { return set[v] }
+	}
+	return func(v string) bool { return !set[v] }
+}
+
+// the real sources
+func numSource(spec string) search.NumericValuesSource {
+	if k := keepNum(spec); k != nil {
+		return aggregations.FilterNumeric(search.Field(baseField(spec)), k)
+	}
+	return search.Field(baseField(spec))
+}
+
+func textSource(spec string) search.TextValuesSource {
+	if k := keepText(spec); k != nil {
+		return aggregations.FilterText(search.Field(baseField(spec)), func(b []byte) bool { return k(string(b)) })
+	}
+	return search.Field(baseField(spec))
+}
+
+func dateSource(spec string) search.DateValuesSource {
+	if k := keepDate(spec); k != nil {
+		return aggregations.FilterDate(search.Field(baseField(spec)), func(t time.Time) bool { return k(t.UnixNano()) })
+	}
+	return search.Field(baseField(spec))
+}
+
+func canonNums(d *doc, spec string) []float64 {
 	if d == nil {
 		return nil
 	}
+	f, keep := baseField(spec), keepNum(spec)
 	seen := map[int64]bool{}
 	var ks []int64
 	for _, v := range d.fields[f] {
@@ -863,17 +1007,20 @@ func canonNums(d *doc, f string) []float64 {
 		}
 	}
 	sort.Slice(ks, func(i, j int) bool { return ks[i] < ks[j] })
-	out := make([]float64, len(ks))
-	for i, k := range ks {
-		out[i] = numeric.Int64ToFloat64(k)
+	out := make([]float64, 0, len(ks))
+	for _, k := range ks {
+		if v := numeric.Int64ToFloat64(k); keep == nil || keep(v) {
+			out = append(out, v)
+		}
 	}
 	return out
 }
 
-func canonDates(d *doc, f string) []int64 {
+func canonDates(d *doc, spec string) []int64 {
 	if d == nil {
 		return nil
 	}
+	f, keep := baseField(spec), keepDate(spec)
 	seen := map[int64]bool{}
 	var ks []int64
 	for _, v := range d.fields[f] {
@@ -884,18 +1031,28 @@ func canonDates(d *doc, f string) []int64 {
 		}
 	}
 	sort.Slice(ks, func(i, j int) bool { return ks[i] < ks[j] })
-	return ks
+	if keep == nil {
+		return ks
+	}
+	out := []int64{}
+	for _, k := range ks {
+		if keep(k) {
+			out = append(out, k)
+		}
+	}
+	return out
 }
 
-func canonTerms(d *doc, f string) []string {
+func canonTerms(d *doc, spec string) []string {
 	if d == nil {
 		return nil
 	}
+	f, keep := baseField(spec), keepText(spec)
 	vs := append([]string(nil), d.fields[f]...)
 	sort.Strings(vs)
 	var out []string
 	for i, v := range vs {
-		if i == 0 || vs[i-1] != v {
+		if (i == 0 || vs[i-1] != v) && (keep == nil || keep(v)) {
 			out = append(out, v)
 		}
 	}
@@ -1174,6 +1331,14 @@ func (s *h) execReq(line string, st *reqStats) (string, string) {
 	st.Count("q:" + strings.SplitN(q, ":", 2)[0])
 	st.Count("c:" + cs[0] + ":" + mode)
 	for _, sp := range specs {
+		if strings.Contains(sp.f, "!") {
+			st.Count("src:filtered:" + sp.kind)
+			for _, sub := range sp.subs {
+				if baseField(sub.f) == baseField(sp.f) && !strings.Contains(sub.f, "!") {
+					st.Count("src:filtered-with-nested-reader-of-same-field")
+				}
+			}
+		}
 		st.Count("agg:" + sp.kind)
 		if sp.kind == "dranges" {
 			for _, rg := range sp.ranges {
